@@ -144,8 +144,30 @@ def render_line(l):
     return out
 
 
-def render_book(secs):
-    return '\n\n'.join('\n'.join(render_line(l) for l in sec if not (l[0] == 'm' and not l[1])) for sec in secs) + '\n'
+def render_book(secs, style=None):
+    """style (all lexical, invisible to the token-level model): crlf line ends, indented lines with trailing blanks,
+    %-comments (own line and trailing), several / whitespace-only separator lines, leading blank lines"""
+    st = style or {}
+    nl = '\r\n' if st.get('crlf') else '\n'
+    ind = {0: '', 1: '  ', 2: '\t'}[st.get('indent', 0)]
+    parts = []
+    for sec in secs:
+        lines = [render_line(l) for l in sec if not (l[0] == 'm' and not l[1])]
+        if st.get('comment'):
+            out = []
+            for k, ln in enumerate(lines):
+                out.append(ln + (' %% c%d' % k if k % 2 == 0 else ''))
+                if k == 0:
+                    out.append('% a comment line')
+            lines = out
+        parts.append(nl.join(ind + ln + (' ' if ind else '') for ln in lines))
+    blank = st.get('blank', 0)
+    sep = nl + (('  ' + nl) if blank == 2 else '') + (nl * (2 if blank == 1 else 1))
+    return (nl if blank else '') + sep.join(parts) + nl
+
+
+def _style(case):
+    return case['input'].get('style')
 
 
 # ---------------------------------------------------------------- wire
@@ -250,12 +272,19 @@ def _f(x):
 
 def _canon_tune(ns):
     from note_seq import sequences_lib
+    before = ns.SerializeToString(deterministic=True)
     try:
         ex = sequences_lib.expand_section_groups(ns)
         exp = ['OK', [sa.section_id for sa in ex.section_annotations],
                sorted([[n.pitch, _f(n.start_time), _f(n.end_time)] for n in ex.notes], key=_note_key)]
+        # two-step use: expanding the expansion changes nothing (it has no section groups left)
+        ex2 = sequences_lib.expand_section_groups(ex)
+        if [(n.pitch, n.start_time, n.end_time) for n in ex2.notes] != [(n.pitch, n.start_time, n.end_time) for n in ex.notes]:
+            exp = ['EXC', 'EXPANSION-NOT-IDEMPOTENT']
     except Exception as e:  # noqa
         exp = ['EXC', type(e).__name__]
+    if ns.SerializeToString(deterministic=True) != before:
+        exp = ['EXC', 'EXPAND-MODIFIED-ITS-ARGUMENT']
     return [ns.reference_number,
             [[n.pitch, _f(n.start_time), _f(n.end_time)] for n in ns.notes],
             [[_f(t.time), _f(t.qpm)] for t in ns.tempos],
@@ -276,7 +305,7 @@ def _parse_text(text):
 
 
 def impl(case):
-    return _parse_text(render_book(case['input']['sections']))[0]
+    return _parse_text(render_book(case['input']['sections'], _style(case)))[0]
 
 
 def _close(a, b):
@@ -672,7 +701,7 @@ def oracle(case, io):
     alone = []
     cls = []
     for i, tn in enumerate(tunes):
-        r, _ = _parse_text(render_book(([header] if header else []) + [tn]))
+        r, _ = _parse_text(render_book(([header] if header else []) + [tn], _style(case)))
         alone.append(r)
         cls.append(classify(header + tn))
         txt = render_book([header + tn])
@@ -722,6 +751,92 @@ def oracle(case, io):
     if io[1] != exp_tunes:
         return {'kind': 'tune-result-depends-on-other-tunes', 'refs_got': [t[0] for t in io[1]],
                 'refs_expected': [t[0] for t in exp_tunes]}
+    return state_checks(case, io, header, tunes, exp_tunes, exp_excs)
+
+
+def _expected_key(f):
+    """(accidentals dict, key, mode) the ABC rules give a K: field, or None when it is outside the subset"""
+    from note_seq.protobuf import music_pb2
+    sem = key_semantics(f[1], f[3])
+    if sem is None or any(a in ('^^', '__') for a, _ in f[5]):
+        return None
+    sig, pc, name = sem
+    acc = sig_accidentals(0 if f[4] else sig)
+    for a, l in f[5]:
+        if a:
+            acc[l.upper()] = {'^': 1, '_': -1, '=': 0}[a]
+    return acc, pc, int(getattr(music_pb2.NoteSequence.KeySignature, name))
+
+
+def state_checks(case, io, header, tunes, exp_tunes, exp_excs):
+    """(B) of the audit: the parser keeps no state between calls and hands out no shared objects"""
+    from note_seq import abc_parser
+    secs = case['input']['sections']
+    text = render_book(secs, _style(case))
+    # (i) the same call twice; (iii) damage everything the first call returned, then call again; (iv) the objects
+    # returned by the first call are re-observed after all the later calls
+    first, objs = _parse_text(text)
+    if first != io:
+        return {'kind': 'same-call-twice-differs', 'abc': text}
+    snapshot = [ns.SerializeToString(deterministic=True) for ns in objs.values()]
+    again, objs2 = _parse_text(text)
+    for ns in objs2.values():
+        del ns.notes[:]
+        for k in ns.key_signatures:
+            k.key = (k.key + 5) % 12
+        ns.tempos.add(qpm=1.0)
+        ns.section_groups.add(num_times=7)
+        ns.reference_number += 1000
+    third, _ = _parse_text(text)
+    if third != io:
+        return {'kind': 'result-aliases-an-earlier-result', 'abc': text}
+    # (ii) the tunes in reverse order: every tune still gets its own result
+    if len(tunes) > 1 and (header or any(l[0] == 'f' and l[1][0] == 'X' for l in tunes[-1])):
+        rev, _ = _parse_text(render_book(([header] if header else []) + tunes[::-1], _style(case)))
+        if rev[0] != 'OK' or rev[2] != exp_excs[::-1] or rev[1] != exp_tunes[::-1]:
+            return {'kind': 'result-depends-on-tune-order', 'abc': text}
+    if [ns.SerializeToString(deterministic=True) for ns in objs.values()] != snapshot:
+        return {'kind': 'earlier-result-changed-by-later-calls', 'abc': text}
+    # parse_key called directly, repeatedly, its result damaged in between
+    for sec in secs:
+        for l in sec:
+            fs = [l[1]] if l[0] == 'f' else [t[1] for t in l[1] if t[0] == 'in']
+            for f in fs:
+                if f[0] != 'K':
+                    continue
+                exp = _expected_key(f)
+                if exp is None:
+                    continue
+                ktext = render_field(f)[2:]
+                for attempt in (1, 2):
+                    try:
+                        acc, key, mode = abc_parser.ABCTune.parse_key(ktext)
+                    except Exception as e:  # noqa
+                        return {'kind': 'parse-key-raises', 'key': ktext, 'exception': type(e).__name__, 'call': attempt}
+                    if (dict(acc), int(key), int(mode)) != (exp[0], exp[1], exp[2]):
+                        return {'kind': 'parse-key-differs-from-abc-rules', 'key': ktext, 'call': attempt,
+                                'got': [sorted(dict(acc).items()), int(key), int(mode)],
+                                'expected': [sorted(exp[0].items()), exp[1], exp[2]]}
+                    for k in list(acc):
+                        acc[k] = 9      # damage the returned table
+    # parse_abc_tunebook_file is the same function behind a file read
+    if sum(len(sec) for sec in secs) % 5 == 0:
+        import os
+        d = os.path.join('/verif', 'build', 'tmp')
+        os.makedirs(d, exist_ok=True)
+        fn = os.path.join(d, 'c04_%d.abc' % os.getpid())
+        with open(fn, 'w', newline='') as fh:
+            fh.write(text)
+        try:
+            try:
+                t2, e2 = abc_parser.parse_abc_tunebook_file(fn)
+                viafile = ['OK', [_canon_tune(ns) for ns in t2.values()], [type(e).__name__ for e in e2]]
+            except Exception as e:  # noqa
+                viafile = ['RAISED', type(e).__name__]
+        finally:
+            os.remove(fn)
+        if viafile != io:
+            return {'kind': 'file-variant-differs', 'abc': text}
     return None
 
 
@@ -1054,6 +1169,11 @@ def gen_book(rng, table, tier):
             hdr.append(['f', ['L', 1, rng.choice([4, 8, 16]), False]])
         if rng.random() < 0.4:
             hdr.append(['f', ['nop', 'O', 'Somewhere']])
+        if rng.random() < 0.3:
+            hdr.append(['f', gen_tempo(rng)])
+        if rng.random() < 0.3:
+            hdr.append(['f', gen_key(rng, table)])
+        rng.shuffle(hdr)
         if hdr:
             secs.append(hdr)
     refs = rng.sample(range(1, 60), ntunes)
@@ -1064,7 +1184,11 @@ def gen_book(rng, table, tier):
         flavour = 'ok' if r < 0.62 else 'unsupported' if r < 0.82 else 'wild'
         budget = rng.choice([6, 12, 20, 40, 58])
         secs.append(gen_tune(rng, table, refs[i], budget, flavour))
-    return {'op': 'book', 'input': {'sections': secs}}
+    inp = {'sections': secs}
+    if rng.random() < 0.3:
+        inp['style'] = {'crlf': rng.random() < 0.4, 'indent': rng.choice([0, 1, 2]), 'comment': rng.random() < 0.5,
+                        'blank': rng.choice([0, 1, 2])}
+    return {'op': 'book', 'input': inp}
 
 
 def key_sweep(table, full):
@@ -1117,6 +1241,42 @@ def corpus():
     # a lone tune without X: is a tune (reference number 0), not a file header
     out.append(book([['f', C], ['m', [n('C'), n('D')]]]))
     out.append(book([['f', ['L', 1, 4, False]]], [['f', C], ['m', [n('E')]]]))
+    # ---- audit (C): rare but legal shapes
+    out.append({'op': 'book', 'input': {'sections': []}})                               # empty tunebook
+    out.append(book([['f', ['X', 0]]]))                                                 # a tune that is only X:0
+    out.append(book([['f', ['M', 'frac', 3, 4, '']], ['f', ['L', 1, 8, False]]]))       # a lone "file header" is a tune
+    out.append(book(tune(1, C, [['bar', 0, '|', 0], ['bar', 0, '||', 0], ['bar', 0, '|]', 0]])))   # bars only
+    up4 = "'" * 4
+    out.append(book(tune(1, C, [n('C', '', ',,,,,'), n('g', '', up4), n('B', '', ',,,,,', 16), n('c', '', '', None, 4, None)],
+                         extra=[['L', 1, 1, True]])))                                   # MIDI 0 and 127, L:1, c////
+    out.append(book(tune(1, C, [n('C'), n('C', '', ',,,,,,'), n('D')]), tune(2, C, [n('g', '^', up4)]),
+                    tune(3, ['K', 'C#', '', '', False, []], [n('g', '', up4)]), tune(4, C, [n('g', '=', up4)])))
+    out.append(book(tune(1, C, [n('A'), n('B')], extra=[['L', 1, 64, False], ['Q', 'frac', [[1, 1]], 1, ''],
+                                                         ['M', 'frac', 1, 1, '']])))     # slowest / shortest
+    out.append(book(tune(1, C, [n('A')], extra=[['M', 'frac', 3, 4, '']]), tune(2, C, [n('A')], extra=[['M', 'frac', 11, 16, '']]),
+                    tune(3, C, [n('A')], extra=[['M', 'C|', 2, 2, 'C|']]), tune(4, C, [n('A')], extra=[['M', 'none', 0, 0, 'none']])))
+    out.append(book(tune(1, C, [['bar', 0, '|', 5], n('A'), n('B', '_'), ['bar', 5, '|', 0], n('B')])))   # |::::: six times
+    # two K: fields in one header, and a key in the file header overridden by the tune's own
+    out.append(book([['f', ['X', 1]], ['f', ['K', 'D', '', '', False, [['=', 'c']]]], ['f', ['K', 'D', '', '', False, []]],
+                     ['m', [n('c'), n('f')]]]))
+    out.append(book([['f', ['K', 'G', '', '', False, [['^', 'c']]]], ['f', ['L', 1, 4, False]]],
+                    [['f', ['X', 1]], ['m', [n('c'), n('f')]]],
+                    [['f', ['X', 2]], ['f', ['K', 'E', '', 'm', False, []]], ['m', [n('c'), n('f')]]],
+                    [['f', ['X', 3]], ['f', ['Q', 'bare', [], 120, '']], ['f', ['L', 1, 8, False]], ['m', [n('c'), n('f')]]]))
+    # ---- audit (B): accidentals left pending at the end of a tune / of a rejected tune must not reach the next one
+    out.append(book(tune(1, C, [n('F', '^'), n('B', '_')]), tune(2, C, [n('F'), n('B')]),
+                    tune(3, C, [n('c', '^'), ['un', 'chord', '[CEG]']]), tune(4, C, [n('c'), n('F')])))
+    # ---- audit (D): the offending element is the last thing of the last tune; duplicate after a rejected tune
+    out.append(book(tune(1, C, [n('C'), n('D')]), tune(2, C, [['bar', 0, '|', 1], n('E'), n('F'), ['bar', 1, '|', 0], n('G')]),
+                    tune(3, C, [n('C'), ['bar', 0, '|', 0], n('D'), n('E'), ['un', 'tuplet', '(3']])))
+    out.append(book(tune(5, C, [n('C')]), tune(6, C, [['in', ['P', 'A']], n('D')]), tune(5, C, [n('E')])))
+    out.append(book(tune(5, C, [n('C')]), tune(5, C, [n('D'), ['un', 'invalid', 'z']]), tune(6, C, [n('E')])))
+    # ---- lexical styles (comments, CRLF, indentation, whitespace-only separators)
+    for st in ({'crlf': True, 'indent': 2, 'comment': True, 'blank': 2}, {'crlf': False, 'indent': 1, 'comment': True, 'blank': 1}):
+        c = book([['f', ['L', 1, 4, False]]], tune(1, C, [n('C'), n('F', '^'), ['bar', 0, '|', 0], n('F')]),
+                 tune(2, ['K', 'Bb', ' ', 'Mix', False, []], [n('e'), ['nop', '\\']]))
+        c['input']['style'] = st
+        out.append(c)
     # default unit from the meter; deprecated tempo resolved against it
     out.append(book(tune(1, C, [n('C'), n('D', '', '', 3, 1, 2)], extra=[['M', 'frac', 2, 4, ''], ['Q', 'bare', [], 80, '']])))
     return out
@@ -1136,7 +1296,12 @@ def shrink(case):
     secs = case['input']['sections']
 
     def mk(s):
-        return {'op': case['op'], 'input': {'sections': s}}
+        inp = {'sections': s}
+        if 'style' in case['input']:
+            inp['style'] = case['input']['style']
+        return {'op': case['op'], 'input': inp}
+    if 'style' in case['input']:
+        yield {'op': case['op'], 'input': {'sections': secs}}
     if len(secs) > 1:
         for i in range(len(secs)):
             yield mk(secs[:i] + secs[i + 1:])
